@@ -66,6 +66,11 @@ class Library:
         if isinstance(blocks, Block):
             blocks = [blocks]
 
+        remaining = list(self._blocks)
+        for block in blocks:
+            # Raises ValueError before anything is changed if a block is not in the library
+            remaining.remove(block)
+
         for block in blocks:
             self._blocks.remove(block)
             if isinstance(block, Entry):
